@@ -787,7 +787,10 @@ def real_stream_des_ser(I, data):
     def driver(sd):
         seen.append(sd)
         I["bs"].parse_stream(sd, I["State"]())
-    r = real_des_ser(I, driver, data)
+    try:
+        r = real_des_ser(I, driver, data)
+    except KeyError:
+        return None        # a context type outside the modelled ones (picture/fragment bodies): outside the domain
     try:
         for seq in seen[0].context.get("sequences", []):
             for du in seq.get("data_units", []):
